@@ -6,7 +6,7 @@ From Coq Require Import NArith ZArith List Bool Lia Sorted.
 From PS Require Import Spec.Primes Gen.Tables Model.Pmath Model.Config Model.EratGeom Model.Count Model.Wheel Model.CrossOff
   Model.EratMediumM Model.EratBigM Model.Erat3M Model.KernelPs
   Proofs.TablesP Proofs.PmathP Proofs.ConfigP Proofs.EratGeomP Proofs.CrossOffP Proofs.KernelP Proofs.KernelTopP Proofs.KernelListP
-  Proofs.BytesTopP Proofs.EratBigP Proofs.Erat3LoopP.
+  Proofs.BytesTopP Proofs.EratBigP Proofs.Erat3LoopP Proofs.Erat3TotalP.
 Import ListNotations.
 Local Open Scope N_scope.
 
@@ -35,6 +35,54 @@ Qed.
 Lemma isPow2_log2 x : isPow2 x = true -> x = 2 ^ N.log2 x.
 Proof. unfold isPow2. intros H. apply andb_true_iff in H. destruct H as [_ H]. apply N.eqb_eq in H. exact H. Qed.
 
+(** the geometric hypotheses of the loop theorems hold for the segments of the geometry model *)
+Lemma erat3_geometry l1 maxKB start stop fuelg l :
+  16 <= maxKB -> maxKB <= 8192 -> 7 <= start -> start <= stop -> stop <= MAX64 ->
+  segments fuelg l1 maxKB start stop = Some l ->
+  let a := initAlgorithms l1 maxKB start stop in
+  exists sg0 r0, l = sg0 :: r0 /\ segs_ok3 stop (s_low sg0) (map to_kseg l) /\
+    (nobig stop (a_maxMedium a) 164 \/ szs_ok (N.log2 (a_sieveSize a)) (map to_kseg l)) /\
+    Forall (fun sg => s_bytes sg <= a_sieveSize a) l.
+Proof.
+  intros K1 K2 S1 S2 S3 Hsegs a.
+  destruct (segments_ok l1 maxKB start stop fuelg l K1 K2 S1 S2 S3 Hsegs) as (Hne & Hall & Hadj & _).
+  pose proof (initAlgorithms_admissible l1 maxKB start stop K1 K2 S1 S2 S3) as A. cbn zeta in A. fold a in A.
+  destruct A as (A1 & A2 & A3 & A4 & A5 & A6 & A7 & A8 & A9 & A10 & A11).
+  assert (Hinv : geom_inv stop (a_segLow a) (a_segHigh a) (a_sieveSize a)) by (unfold geom_inv; repeat split; try assumption; lia).
+  unfold segments in Hsegs. fold a in Hsegs.
+  pose proof (segments_loop_high stop _ _ _ _ _ A10 Hsegs) as Hhigh.
+  pose proof (segments_loop_sizes stop S3 fuelg _ _ _ l Hinv Hsegs) as Hsz_eq.
+  pose proof (segments_loop_sizes_le stop S3 fuelg _ _ _ l Hinv Hsegs) as Hsz_le.
+  destruct l as [|sg0 r0]; [congruence|]. exists sg0, r0. split; [reflexivity|].
+  assert (Hsegs3 : forall l' low, Forall (seg_ok stop) l' -> adjacent l' -> Forall (fun sg => s_high sg <= stop) l' ->
+            (match l' with [] => True | sg :: _ => s_low sg = low end) -> segs_ok3 stop low (map to_kseg l')).
+  { induction l' as [|sg r IH]; intros low Hok Hadj' Hhi Hlow; cbn [map segs_ok3]; [exact I|].
+    inversion Hok as [|? ? Hsg Hr]; subst. inversion Hhi as [|? ? Hh1 Hhr]; subst.
+    destruct Hsg as (H30 & Hb & H7 & Hcase). cbn [to_kseg k_low k_size k_high].
+    split; [reflexivity|]. split; [exact H30|]. split; [unfold MAX64 in *; lia|]. split; [exact Hh1|]. split.
+    - destruct (s_last sg); [|lia]. assert (byteRemainder stop <= 36) by (unfold byteRemainder; lia). lia.
+    - destruct r as [|sg' r']; [cbn; exact I|]. cbn [adjacent] in Hadj'. destruct Hadj' as (_ & Hnext & Hadj'').
+      apply IH; [exact Hr|exact Hadj''|exact Hhr|exact Hnext]. }
+  split; [exact (Hsegs3 (sg0 :: r0) (s_low sg0) Hall Hadj Hhigh eq_refl)|]. split; [|exact Hsz_le].
+  destruct (a_bigUsed a) eqn:Eb.
+  - right. destruct (A6 eq_refl) as (Hpow & _). pose proof (isPow2_log2 _ Hpow) as E2.
+    assert (G : forall l', Forall (fun sg => s_last sg = false -> s_bytes sg = a_sieveSize a) l' -> Forall (fun sg => s_bytes sg <= a_sieveSize a) l' ->
+                adjacent l' -> szs_ok (N.log2 (a_sieveSize a)) (map to_kseg l')).
+    { induction l' as [|sg r IH]; intros He Hle Hadj'; cbn [map szs_ok]; [exact I|].
+      inversion He as [|? ? He1 Her]; subst. inversion Hle as [|? ? Hle1 Hler]; subst. cbn [to_kseg k_size].
+      unfold EratBigP.size. rewrite <- E2. split; [exact Hle1|]. split.
+      - intros Hne'. destruct r as [|sg' r']; [cbn in Hne'; congruence|]. cbn [adjacent] in Hadj'. apply He1. tauto.
+      - apply IH; [exact Her|exact Hler|]. destruct r as [|sg' r']; [exact I|]. cbn [adjacent] in Hadj'. tauto. }
+    exact (G _ Hsz_eq Hsz_le Hadj).
+  - left. intros p (Hp & _ & Hsq). apply sqrt_sq_le in Hsq.
+    assert (Hbu : a_bigUsed a = (a_maxMedium a <? N.sqrt stop)).
+    { unfold a, initAlgorithms. cbv zeta. cbn [a_bigUsed a_maxMedium]. reflexivity. }
+    rewrite Hbu in Eb. apply N.ltb_ge in Eb. lia.
+Qed.
+
+Lemma pending_spec stop p : In p (primes_between 164 (N.sqrt stop)) <-> sp_ok3 stop 164 p.
+Proof. rewrite In_primes_between. unfold sp_ok3. rewrite sqrt_sq_le. tauto. Qed.
+
 Theorem erat3_model_correct l1 maxKB start stop fuelg fuel l result :
   16 <= maxKB -> maxKB <= 8192 -> 7 <= start -> start <= stop -> stop <= MAX64 ->
   segments fuelg l1 maxKB start stop = Some l ->
@@ -46,47 +94,34 @@ Theorem erat3_model_correct l1 maxKB start stop fuelg fuel l result :
             (presieve_bit (k_low sg) n = true /\ ~ In (byteof (k_low sg) n, maskof n) cleared <-> prime n)) result.
 Proof.
   intros K1 K2 S1 S2 S3 Hsegs a Hloop.
-  destruct (segments_ok l1 maxKB start stop fuelg l K1 K2 S1 S2 S3 Hsegs) as (Hne & Hall & Hadj & _).
-  pose proof (initAlgorithms_admissible l1 maxKB start stop K1 K2 S1 S2 S3) as A. cbn zeta in A. fold a in A.
-  destruct A as (A1 & A2 & A3 & A4 & A5 & A6 & A7 & A8 & A9 & A10 & A11).
-  assert (Hinv : geom_inv stop (a_segLow a) (a_segHigh a) (a_sieveSize a)) by (unfold geom_inv; repeat split; try assumption; lia).
-  unfold segments in Hsegs. fold a in Hsegs.
-  pose proof (segments_loop_high stop _ _ _ _ _ A10 Hsegs) as Hhigh.
-  pose proof (segments_loop_sizes stop S3 fuelg _ _ _ l Hinv Hsegs) as Hsz_eq.
-  pose proof (segments_loop_sizes_le stop S3 fuelg _ _ _ l Hinv Hsegs) as Hsz_le.
-  destruct l as [|sg0 r0]; [congruence|].
-  (* the geometric hypotheses of the loop theorem *)
-  assert (Hsegs3 : forall l' low, Forall (seg_ok stop) l' -> adjacent l' -> Forall (fun sg => s_high sg <= stop) l' ->
-            (match l' with [] => True | sg :: _ => s_low sg = low end) -> segs_ok3 stop low (map to_kseg l')).
-  { induction l' as [|sg r IH]; intros low Hok Hadj' Hhi Hlow; cbn [map segs_ok3]; [exact I|].
-    inversion Hok as [|? ? Hsg Hr]; subst. inversion Hhi as [|? ? Hh1 Hhr]; subst.
-    destruct Hsg as (H30 & Hb & H7 & Hcase). cbn [to_kseg k_low k_size k_high].
-    split; [reflexivity|]. split; [exact H30|]. split; [unfold MAX64 in *; lia|]. split; [exact Hh1|]. split.
-    - destruct (s_last sg); [|lia]. assert (byteRemainder stop <= 36) by (unfold byteRemainder; lia). lia.
-    - destruct r as [|sg' r']; [cbn; exact I|]. cbn [adjacent] in Hadj'. destruct Hadj' as (_ & Hnext & Hadj'').
-      apply IH; [exact Hr|exact Hadj''|exact Hhr|exact Hnext]. }
-  pose proof (Hsegs3 (sg0 :: r0) (s_low sg0) Hall Hadj Hhigh eq_refl) as Hs3.
-  assert (Hszs : nobig stop (a_maxMedium a) 164 \/ szs_ok (N.log2 (a_sieveSize a)) (map to_kseg (sg0 :: r0))).
-  { destruct (a_bigUsed a) eqn:Eb.
-    - right. destruct (A6 eq_refl) as (Hpow & _). pose proof (isPow2_log2 _ Hpow) as E2.
-      assert (G : forall l', Forall (fun sg => s_last sg = false -> s_bytes sg = a_sieveSize a) l' -> Forall (fun sg => s_bytes sg <= a_sieveSize a) l' ->
-                  adjacent l' -> szs_ok (N.log2 (a_sieveSize a)) (map to_kseg l')).
-      { induction l' as [|sg r IH]; intros He Hle Hadj'; cbn [map szs_ok]; [exact I|].
-        inversion He as [|? ? He1 Her]; subst. inversion Hle as [|? ? Hle1 Hler]; subst. cbn [to_kseg k_size].
-        unfold EratBigP.size. rewrite <- E2. split; [exact Hle1|]. split.
-        - intros Hne'. destruct r as [|sg' r']; [cbn in Hne'; congruence|]. cbn [adjacent] in Hadj'. apply He1. tauto.
-        - apply IH; [exact Her|exact Hler|]. destruct r as [|sg' r']; [exact I|]. cbn [adjacent] in Hadj'. tauto. }
-      exact (G _ Hsz_eq Hsz_le Hadj).
-    - left. intros p (Hp & _ & Hsq). apply sqrt_sq_le in Hsq.
-      (* a_bigUsed = false: maxEratMedium_ = sqrt(stop) *)
-      assert (Hbu : a_bigUsed a = (a_maxMedium a <? N.sqrt stop)).
-      { unfold a, initAlgorithms. cbv zeta. cbn [a_bigUsed a_maxMedium]. reflexivity. }
-      rewrite Hbu in Eb. apply N.ltb_ge in Eb. lia. }
-  apply (erat3_kernel_spec fuel stop (a_maxSmall a) (a_maxMedium a) (N.log2 (a_sieveSize a)) (map to_kseg (sg0 :: r0)) (s_low sg0)
+  destruct (erat3_geometry l1 maxKB start stop fuelg l K1 K2 S1 S2 S3 Hsegs) as (sg0 & r0 & El & Hs3 & Hszs & _). fold a in Hszs.
+  apply (erat3_kernel_spec fuel stop (a_maxSmall a) (a_maxMedium a) (N.log2 (a_sieveSize a)) (map to_kseg l) (s_low sg0)
            (primes_between 164 (N.sqrt stop)) result S3 Hs3 Hszs).
   - apply primes_between_sorted.
-  - intros p. rewrite In_primes_between. unfold sp_ok3. rewrite sqrt_sq_le. tauto.
+  - intros p. apply pending_spec.
   - exact Hloop.
+Qed.
+
+(** ... and the run always returns with enough fuel: for every configuration and interval *)
+Theorem erat3_model_total l1 maxKB start stop fuelg l :
+  16 <= maxKB -> maxKB <= 8192 -> 7 <= start -> start <= stop -> stop <= MAX64 ->
+  segments fuelg l1 maxKB start stop = Some l ->
+  let a := initAlgorithms l1 maxKB start stop in
+  exists fuel, sieve_loop3 fuel stop (a_maxSmall a) (a_maxMedium a) (N.log2 (a_sieveSize a)) (map to_kseg l)
+                           (primes_between 164 (N.sqrt stop)) e3_init <> None.
+Proof.
+  intros K1 K2 S1 S2 S3 Hsegs a.
+  destruct (erat3_geometry l1 maxKB start stop fuelg l K1 K2 S1 S2 S3 Hsegs) as (sg0 & r0 & El & Hs3 & Hszs & Hle). fold a in Hszs, Hle.
+  set (pend := primes_between 164 (N.sqrt stop)).
+  set (F := 30 * a_sieveSize a + 38 + N.of_nat (length pend) * EratBigP.size (N.log2 (a_sieveSize a)) + 1).
+  exists (N.to_nat F).
+  assert (H31 : 31 <= 164) by lia.
+  apply (Erat3TotalP.sieve_loop3_total stop (a_maxSmall a) (a_maxMedium a) (N.log2 (a_sieveSize a)) 164 S3 H31 (N.to_nat F) ltac:(subst F; lia)
+           (map to_kseg l) (s_low sg0) pend e3_init (mkW [] [] []) Hs3 Hszs (st_ok_init _ _) (fun _ => eq_refl)).
+  - apply Forall_forall. intros p Hp. apply pending_spec. exact Hp.
+  - apply Forall_forall. intros sg Hin. apply in_map_iff in Hin. destruct Hin as (x & <- & Hx). rewrite Forall_forall in Hle. specialize (Hle x Hx).
+    cbn [to_kseg k_size]. rewrite N2Nat.id. subst F. lia.
+  - rewrite N2Nat.id. subst F. cbn [Erat3TotalP.biglen e3_init e_big EratBigP.abs_of EratBigP.abs_from length plus]. unfold EratBigP.size. lia.
 Qed.
 
 (** the hypotheses are satisfiable: a run of the model that returns (sieving primes 167..199 in EratSmall); runs in which all
